@@ -523,3 +523,75 @@ func writeJSON(path string, v any) error {
 }
 
 var startTime = time.Now()
+
+// StaticReach is a call-graph-independent closure: static callees owned by the
+// package, implementations (in the package) of methods invoked through
+// interfaces declared in the package, and closures created on the way. Calls
+// through function-typed values are not followed (the closures they may
+// denote are included where they are created).
+func (p *Program) StaticReach(entries ...*ssa.Function) map[*ssa.Function]bool {
+	seen := map[*ssa.Function]bool{}
+	var work []*ssa.Function
+	push := func(f *ssa.Function) {
+		if f != nil && !seen[f] && f.Blocks != nil && p.owns(f) {
+			seen[f] = true
+			work = append(work, f)
+		}
+	}
+	for _, e := range entries {
+		push(e)
+	}
+	for len(work) > 0 {
+		f := work[len(work)-1]
+		work = work[:len(work)-1]
+		for _, a := range f.AnonFuncs {
+			push(a)
+		}
+		for _, b := range f.Blocks {
+			for _, in := range b.Instrs {
+				ci, ok := in.(ssa.CallInstruction)
+				if !ok {
+					continue
+				}
+				cc := ci.Common()
+				if sc := cc.StaticCallee(); sc != nil {
+					push(sc)
+				} else if cc.IsInvoke() {
+					for _, impl := range p.implementations(cc) {
+						push(impl)
+					}
+				}
+				for _, a := range cc.Args {
+					if fn := funcValue(a); fn != nil {
+						push(fn)
+					}
+				}
+			}
+		}
+	}
+	return seen
+}
+
+// implementations lists the package's methods that an invoke on an interface
+// declared in the package can dispatch to.
+func (p *Program) implementations(cc *ssa.CallCommon) []*ssa.Function {
+	n := namedOf(cc.Value.Type())
+	if n == nil || n.Obj().Pkg() != p.Types {
+		return nil
+	}
+	it, ok := n.Underlying().(*types.Interface)
+	if !ok {
+		return nil
+	}
+	var out []*ssa.Function
+	for _, fn := range p.Funcs {
+		recv := fn.Signature.Recv()
+		if recv == nil || fn.Parent() != nil || fn.Name() != cc.Method.Name() {
+			continue
+		}
+		if types.Implements(recv.Type(), it) {
+			out = append(out, fn)
+		}
+	}
+	return out
+}
